@@ -49,6 +49,10 @@ enum Fault {
     ForgeNs,
     /// strip the RRSIGs and alter the data of the answer
     StripAndAlter,
+    /// add an unsigned DS of the attacker's key under a foreign owner name to a DS response
+    InjectForeignDs,
+    /// reverse the order of the records of the answer section (order is not signed)
+    ReorderAnswer,
 }
 
 #[derive(Serialize, Deserialize, Clone, Copy, Debug, PartialEq, Eq, PartialOrd, Ord)]
@@ -61,12 +65,15 @@ enum Class {
     NsProbe,
 }
 
-#[derive(Serialize, Deserialize, Clone, Copy, Debug)]
+#[derive(Serialize, Deserialize, Clone, Debug)]
 struct FaultAt {
     class: Class,
     /// k-th exchange of that class within the run (`255` = every one)
     occurrence: u8,
     fault: Fault,
+    /// only exchanges whose question name is this one (empty = any)
+    #[serde(default)]
+    qname: String,
 }
 
 #[derive(Serialize, Deserialize, Clone, Debug)]
@@ -81,6 +88,9 @@ struct Plan {
     queries: Vec<usize>,
     concurrent: bool,
     faults: Vec<FaultAt>,
+    /// the DS RRset of leaf.tld. additionally holds a DS with an unsupported algorithm
+    #[serde(default)]
+    mixed_ds: bool,
 }
 
 struct Names {
@@ -170,6 +180,9 @@ fn build_world(p: &Plan) -> (World, Vec<KeyRef>) {
         ns("badalg.tld.", "ns.badalg.tld."),
         a("ns.badalg.tld.", 7),
     ];
+    if p.mixed_ds {
+        tld_recs.push(Record::from_rdata(n("leaf.tld."), 3600, RData::DNSSEC(DNSSECRData::DS(DS::new(4712, Algorithm::Unknown(201), DigestType::SHA256, vec![9u8; 32])))));
+    }
     // a DS whose algorithm the validator does not support: the child is to be treated as insecure
     tld_recs.push(Record::from_rdata(n("badalg.tld."), 3600, RData::DNSSEC(DNSSECRData::DS(DS::new(4711, Algorithm::Unknown(200), DigestType::SHA256, vec![7u8; 32])))));
     let tld = ZoneSpec { origin: to, records: tld_recs, nx: nx(p, 1), keys: tld_keys, sig_duration_s: dur };
@@ -319,6 +332,17 @@ fn apply_fault(world: &World, q: &Query, orig: &Message, f: Fault) -> Option<Opt
             m.answers = vec![Record::from_rdata(q.name.clone(), 300, RData::NS(NS(n("ns.attacker."))))];
             m.authorities.clear();
         }
+        Fault::InjectForeignDs => {
+            if q.query_type != RecordType::DS {
+                return None;
+            }
+            let mut ds = ds_for(&KeyRef::ed(5), &q.name);
+            ds.name = Name::from_ascii("x").unwrap().append_domain(&q.name).ok()?;
+            m.answers.push(ds);
+        }
+        Fault::ReorderAnswer => {
+            m.answers.reverse();
+        }
         Fault::StripAndAlter => {
             let mut any = false;
             for r in m.answers.iter_mut() {
@@ -359,10 +383,10 @@ fn gen_fault(r: &mut Rng) -> FaultAt {
         10..=11 => (Class::NsProbe, Fault::ForgeNs),
         12..=13 => (Class::Main, Fault::StripAndAlter),
         14 => (Class::Dnskey, Fault::Alter(0)),
-        _ => (Class::Ds, Fault::Alter(0)),
+        _ => (*r.pick(&[Class::Ds, Class::Ds, Class::Main, Class::Dnskey]), *r.pick(&[Fault::Alter(0), Fault::InjectForeignDs, Fault::ReorderAnswer])),
     };
     let occurrence = if matches!(fault, Fault::ForgeNs) || r.chance(1, 3) { 255 } else { r.below(3) as u8 };
-    FaultAt { class, occurrence, fault }
+    FaultAt { class, occurrence, fault, qname: String::new() }
 }
 
 impl Part for C07Part {
@@ -393,7 +417,20 @@ impl Part for C07Part {
             }
             // the downgrade shape needs its two halves together
             if r.chance(1, 4) {
-                faults = vec![FaultAt { class: Class::Main, occurrence: 255, fault: Fault::StripAndAlter }, FaultAt { class: Class::NsProbe, occurrence: 255, fault: Fault::ForgeNs }];
+                faults = vec![FaultAt { class: Class::Main, occurrence: 255, fault: Fault::StripAndAlter, qname: String::new() }, FaultAt { class: Class::NsProbe, occurrence: 255, fault: Fault::ForgeNs, qname: String::new() }];
+            }
+            // key substitution needs three cooperating halves
+            if r.chance(1, 6) {
+                let z = r.pick(&["leaf.tld.", "leaf.tld.", "tld."]).to_string();
+                faults = vec![
+                    FaultAt { class: Class::Ds, occurrence: 255, fault: Fault::InjectForeignDs, qname: z.clone() },
+                    FaultAt { class: Class::Dnskey, occurrence: 255, fault: Fault::AttackerDnskeys, qname: z },
+                    FaultAt { class: Class::Main, occurrence: 255, fault: Fault::InjectAttackerSigned, qname: String::new() },
+                ];
+            }
+            // the order of a DS RRset is the sender's choice
+            if r.chance(1, 6) {
+                faults.push(FaultAt { class: Class::Ds, occurrence: 255, fault: Fault::ReorderAnswer, qname: String::new() });
             }
         }
         serde_json::to_value(Plan {
@@ -406,6 +443,7 @@ impl Part for C07Part {
             queries,
             concurrent: r.chance(1, 3),
             faults,
+            mixed_ds: r.chance(1, 3),
         })
         .unwrap()
     }
@@ -461,6 +499,11 @@ impl Part for C07Part {
             q.concurrent = false;
             out.push(q);
         }
+        if p.mixed_ds {
+            let mut q = p.clone();
+            q.mixed_ds = false;
+            out.push(q);
+        }
         if p.opt_out {
             let mut q = p.clone();
             q.opt_out = false;
@@ -497,6 +540,8 @@ fn fault_code(f: Fault) -> u64 {
         Fault::Drop => 10,
         Fault::ForgeNs => 11,
         Fault::StripAndAlter => 12,
+        Fault::InjectForeignDs => 13,
+        Fault::ReorderAnswer => 14,
     }
 }
 
@@ -586,7 +631,7 @@ async fn scenario(p: Plan) {
             };
             let mut cur = Some(m);
             let mut tampered = false;
-            for f in faults.iter().filter(|f| f.class == class && (f.occurrence == 255 || f.occurrence == k)) {
+            for f in faults.iter().filter(|f| f.class == class && (f.occurrence == 255 || f.occurrence == k) && (f.qname.is_empty() || q.name.to_lowercase().to_string() == f.qname)) {
                 let Some(mm) = cur.clone() else { break };
                 if let Some(res) = apply_fault(&world2, q, &mm, f.fault) {
                     applied.lock().unwrap().push(format!("{}@{:?}", fault_name(f.fault), class));
